@@ -425,6 +425,14 @@ theorem growsS_number {t₁ t₂ : Table} (hs : Table.Sub t₁ t₂) (hn : Table
   rw [frontEval_complete_const, frontEval_complete_const]
   exact Simp.const_retry (Table.sub_get hs) (Table.nodef_get hn) (frontEval_noSuch_eval h) c none
 
+/-- tree-level `Grows` under the exact condition `LeftStable` -/
+theorem grows_stable {t₁ t₂ : Table} (hs : Table.Sub t₁ t₂) (hn : Table.NoDef t₁) {a : Arg}
+    (hp : LeftStableArg t₁ t₂ a) : Front.Grows (frontEval t₁) (frontEval t₂) a := by
+  refine ⟨fun a' h => frontEval_complete_mono hs hn h, fun n a₁ h => ?_, fun c a₁ => frontEval_never_deferred hn a c a₁⟩
+  have h' := frontEval_noSuch_eval h
+  have : evalIn t₁ a = .ok (.noSuch n a₁) := by unfold evalIn; rw [h']
+  exact frontEval_congr t₂ _ _ (data_retry_stable hs hn hp this)
+
 /-- … and at every position under the exact condition `LeftStable` -/
 theorem growsS_stable {t₁ t₂ : Table} (hs : Table.Sub t₁ t₂) (hn : Table.NoDef t₁) (k : Front.Kind) {a : Arg}
     (hp : LeftStableArg t₁ t₂ a) : Front.GrowsS k (frontEval t₁) (frontEval t₂) a := by
